@@ -9,8 +9,8 @@ import warnings
 
 from .common import Suite, errname, hx, merge
 
-GEN_UNITS = ["Des", "Totp"]
-LEAN_TARGETS = ["PasslibVerif.Props.C11"]
+GEN_UNITS = ["Des", "Totp", "Blowfish", "Scrypt", "B64"]
+LEAN_TARGETS = ["PasslibVerif.Props.C11", "PasslibVerif.Props.C11Blowfish", "PasslibVerif.Props.C11Scrypt"]
 ASSUMPTIONS = [
     "hashlib/OpenSSL digests, hashlib.pbkdf2_hmac and hashlib.scrypt are external; the Lean Spec/* transcriptions are validated against them on every run",
     "stringprep / unicodedata tables used by saslprep are CPython's (atoms)",
@@ -24,7 +24,17 @@ EXPLANATION = (
 ONLY_CORRESPONDENCE = ["saslprep (explored on the real code against an independent RFC 4013 reading)"]
 
 
+def struct_salsa(blk: bytes) -> str:
+    import struct
+
+    from passlib.crypto.scrypt._salsa import salsa20
+
+    return struct.pack("<16I", *salsa20(struct.unpack("<16I", blk))).hex()
+
+
 def des_err(o):
+    if o == "ok":
+        return "ok "
     return "err ValueError" if o.startswith("err ") else o
 
 
@@ -106,7 +116,50 @@ def correspond(ctx):
             if alg != "md4":
                 kl2 = rng.choice([1, D - 1, D, D + 1, 2 * D + 5])
                 s_mac.add(f"digest pbkdf2 {alg} {hx(pw)} {hx(salt)} {rounds} {kl2}", lambda alg=alg, pw=pw, salt=salt, rounds=rounds, kl2=kl2: pdg.pbkdf2_hmac(alg, pw, salt, rounds, kl2).hex(), "pbkdf2")
-    res = merge(s_des, s_spec, s_dig, s_mac)
+    # ---- Blowfish / bcrypt core: compiled model (unrolled + base engines) and spec vs passlib's raw_bcrypt and the bcrypt wheel
+    from passlib.crypto._blowfish import raw_bcrypt
+
+    try:
+        import bcrypt as wheel
+    except Exception:  # noqa: BLE001
+        wheel = None
+    s_bf = Suite(ctx, "bcrypt-core", model_canon=des_err)
+    B64C = "./ABCDEFGHIJKLMNOPQRSTUVWXYZabcdefghijklmnopqrstuvwxyz0123456789"
+    lens = list(range(0, 74)) if ctx.thorough else [0, 1, 2, 7, 8, 17, 55, 56, 71, 72, 73]
+    wheel_checked = 0
+    for ln in lens:
+        for ident in (["2", "2a", "2b", "2y"] if ctx.thorough else [rng.choice(["2a", "2b", "2y"]), "2"]):
+            cost = rng.choice([4, 4, 5]) if not ctx.thorough else rng.choice([4, 5, 6])
+            pw = bytes(rng.randrange(1, 256) for _ in range(ln))
+            salt = "".join(rng.choice(B64C) for _ in range(21)) + rng.choice(".Oeu")
+            op = rng.choice(["raw", "rawbase", "spec"])
+            s_bf.add(f"bf {op} {hx(pw)} {ident} {salt} {cost}", lambda pw=pw, ident=ident, salt=salt, cost=cost: raw_bcrypt(pw, ident, salt.encode(), cost).decode(), op)
+            if wheel is not None and ident != "2" and ln <= 72 and 0 not in pw:
+                wheel_checked += 1
+                s_bf.add(f"bf spec {hx(pw)} {ident} {salt} {cost}", lambda pw=pw, ident=ident, salt=salt, cost=cost: wheel.hashpw(pw, f"${ident}${cost:02d}${salt}".encode())[-31:].decode(), "bcrypt-wheel")
+    for bad in (("2x", 4), ("3", 4), ("2a", 3), ("2a", 32)):
+        s_bf.add(f"bf raw 7077 {bad[0]} {'.' * 22} {bad[1]}", lambda bad=bad: raw_bcrypt(b"pw", bad[0], b"." * 22, bad[1]).decode(), "errors")
+    s_bf.add("bf raw 7077 2a ........ 4", lambda: raw_bcrypt(b"pw", "2a", b"." * 8, 4).decode(), "errors")
+    # ---- scrypt: compiled model and RFC transcription vs passlib's builtin engine and hashlib.scrypt
+    from passlib.crypto.scrypt import _builtin as sb
+    from passlib.crypto import scrypt as ps
+
+    s_sc = Suite(ctx, "scrypt", model_canon=des_err)
+    for _ in range(60 if not ctx.thorough else 1200):
+        n = 1 << rng.randrange(1, 8 if not ctx.thorough else 11)
+        r = rng.randrange(1, 5 if not ctx.thorough else 9)
+        p = rng.randrange(1, 3 if not ctx.thorough else 5)
+        kl = rng.choice([1, 16, 31, 32, 33, 64, 65, 130])
+        pw, salt = rng.randbytes(rng.randrange(0, 40)), rng.randbytes(rng.randrange(0, 20))
+        s_sc.add(f"scrypt run {hx(pw)} {hx(salt)} {n} {r} {p} {kl}", lambda pw=pw, salt=salt, n=n, r=r, p=p, kl=kl: sb.ScryptEngine.execute(pw, salt, n, r, p, kl).hex(), "model-vs-builtin")
+        s_sc.add(f"scrypt spec {hx(pw)} {hx(salt)} {n} {r} {p} {kl}", lambda pw=pw, salt=salt, n=n, r=r, p=p, kl=kl: hashlib.scrypt(pw, salt=salt, n=n, r=r, p=p, dklen=kl, maxmem=1 << 30).hex(), "spec-vs-hashlib")
+    for _ in range(100):
+        blk = rng.randbytes(64)
+        s_sc.add(f"scrypt salsa {hx(blk)}", lambda blk=blk: struct_salsa(blk), "salsa")
+    for n, r, p in [(16, 8, 1), (15, 8, 1), (0, 1, 1), (1, 1, 1), (2, 1, 1), (-16, 8, 1), (16, 0, 1), (16, 1, 0), (1 << 20, 1 << 15, 1 << 15), (16, 1 << 29, 2), (16, 1 << 29, 1), (24, 1, 1), (1 << 40, 1, 1)] + [(rng.randrange(-4, 70), rng.randrange(-1, 10), rng.randrange(-1, 10)) for _ in range(300)]:
+        s_sc.add(f"scrypt validate {n} {r} {p}", lambda n=n, r=r, p=p: (ps.validate(n, r, p), "")[1].strip(), "validate")
+    res = merge(s_des, s_spec, s_dig, s_mac, s_bf, s_sc)
+    res["suites"]["bcrypt-core"]["bcrypt_wheel_cases"] = wheel_checked
     res["suites"]["des-spec-vs-passlib-and-openssl"]["openssl_pairs"] = ossl
     return res
 
